@@ -3,10 +3,13 @@ EXTENDS Cli
 B == BOOLEAN
 Inv(sub, format, massive, file, dryrun, exts, target, strict, stray, unknown, doc, stdout) ==
   [sub |-> sub, format |-> format, massive |-> massive, file |-> file, dryrun |-> dryrun, exts |-> exts,
-   target |-> target, strict |-> strict, stray |-> stray, unknown |-> unknown, doc |-> doc, stdout |-> stdout, mtimeout |-> FALSE]
+   target |-> target, strict |-> strict, stray |-> stray, unknown |-> unknown, doc |-> doc, stdout |-> stdout, mtimeout |-> FALSE, watch |-> FALSE]
 \* output --massive-timeout 1ns (an already expired context)
 TimeoutInvs == {[Inv("output", f, m, file, FALSE, {}, "", FALSE, FALSE, FALSE, d, "pipe") EXCEPT !.mtimeout = TRUE] :
                   f \in {"", "json"}, m \in B, file \in {"stdin", "existing"}, d \in {"wf", "empty", "malformed"}}
+\* output --watch
+WatchInvs == {[Inv("output", f, m, file, FALSE, {}, "", FALSE, FALSE, FALSE, d, "pipe") EXCEPT !.watch = TRUE] :
+                f \in {"", "json"}, m \in B, file \in {"stdin", "existing", "missing"}, d \in {"wf", "empty", "malformed"}}
 Docs == {"wf", "malformed", "empty", "hostile"}
 DotDocs == {"dot"}
 Files == {"stdin", "dash", "existing", "missing"}
@@ -23,7 +26,7 @@ TemplateInvs == {Inv("template", "", FALSE, "stdin", FALSE, {}, "", FALSE, st, F
 DotInvs == {Inv("output", "", FALSE, "stdin", FALSE, {}, "", FALSE, FALSE, FALSE, "dot", "pipe")}
            \cup {Inv("mkdir", "", FALSE, "stdin", FALSE, {}, t, FALSE, FALSE, FALSE, "dot", "pipe") : t \in {"", "sub"}}
            \cup {Inv("verify", "", FALSE, "stdin", FALSE, {}, t, s, FALSE, FALSE, "dot", "pipe") : t \in {"", "sub"}, s \in B}
-AllInvs == OutputInvs \cup MkdirInvs \cup VerifyInvs \cup TemplateInvs \cup DotInvs \cup TimeoutInvs
+AllInvs == OutputInvs \cup MkdirInvs \cup VerifyInvs \cup TemplateInvs \cup DotInvs \cup TimeoutInvs \cup WatchInvs
 \* second and third steps of a sequence: the same well-formed document, mkdir / verify variants
 Follow == {Inv("mkdir", "", FALSE, "stdin", dr, {".x"}, "", FALSE, FALSE, FALSE, "wf", "pipe") : dr \in B}
           \cup {Inv("verify", "", FALSE, "stdin", FALSE, {}, "", s, FALSE, FALSE, d, "pipe") : s \in B, d \in {"wf", "dot"}}
